@@ -158,7 +158,42 @@ func (ie *initEnv) state() string {
 			}
 		}
 	}
-	return fmt.Sprintf("position=%d tokenIndex=%d tokens=[%s] furthest=%s", ie.int("position"), ti, strings.Join(toks, " "), tokStr(ie.vars["maxToken"].v))
+	return fmt.Sprintf("position=%d tokenIndex=%d tokens=[%s] furthest=%s", ie.int("position"), ti, strings.Join(toks, " "), tokStr(ie.furthest()))
+}
+
+// furthest: the token Init keeps for the error report — the variable of the
+// token type, or the token inside a small tracker struct.
+func (ie *initEnv) furthest() Value {
+	if c := ie.vars["maxToken"]; c != nil {
+		return c.v
+	}
+	isToken := func(v Value) bool {
+		o, ok := v.(*Obj)
+		if !ok || o == nil {
+			return false
+		}
+		n, ok := o.t.(*types.Named)
+		return ok && n.Obj().Name() == "token"
+	}
+	var names []string
+	for n := range ie.vars {
+		names = append(names, n)
+	}
+	sort.Strings(names)
+	for _, n := range names {
+		v := ie.vars[n].v
+		if isToken(v) {
+			return v
+		}
+		if o, ok := v.(*Obj); ok && o != nil && len(o.fields) <= 2 {
+			for _, f := range o.fields {
+				if isToken(f.v) {
+					return f.v
+				}
+			}
+		}
+	}
+	panic(undecided{"Init keeps no furthest token (no variable of the token type, plain or inside a tracker)"})
 }
 
 // a scripted rule body: advance to absolute positions and add tokens
@@ -247,7 +282,7 @@ func rtMemoSemantics(a *aggregator, v *rtView) {
 			if mc == nil {
 				panic(undecided{"Init declares no memoization table"})
 			}
-			m, _ := mc.v.(*MapV)
+			m := memoMapOf(mc.v)
 			var entry Value
 			if m != nil {
 				for _, e := range m.m {
@@ -328,10 +363,11 @@ func rtMemoSemantics(a *aggregator, v *rtView) {
 func (ie *initEnv) fullState() string {
 	var extra []string
 	if c := ie.vars["memoization"]; c != nil {
-		if m, ok := c.v.(*MapV); ok && m != nil {
+		if m := memoMapOf(c.v); m != nil {
 			extra = append(extra, fmt.Sprintf("memo entries=%d", len(m.m)))
 		} else {
-			extra = append(extra, "memo table nil")
+			// a table that is allocated by its first entry holds none
+			extra = append(extra, "memo entries=0")
 		}
 	}
 	if c := ie.vars["text"]; c != nil {
@@ -414,13 +450,79 @@ func (ie *initEnv) setRule(idx int, branches [][]step, verdict bool) {
 	}}
 }
 
-func (ie *initEnv) parse() Value {
+func (ie *initEnv) parse() Value { return ie.parseRule() }
+
+// parseRule calls the parser's public Parse method (with the given rule
+// arguments), whatever the plumbing between it and the closure Init installs.
+func (ie *initEnv) parseRule(rule ...int64) Value {
 	ie.it.steps = 0
-	res := ie.it.callValue(nil, ie.p.field("parse").v, nil)
+	name := ""
+	if n, ok := ie.p.t.(*types.Named); ok {
+		name = n.Obj().Name()
+	}
+	fd := ie.it.declOf(name + ".Parse")
+	if fd == nil {
+		panic(undecided{"the parser has no Parse method"})
+	}
+	args := &SliceV{elems: []Value{}}
+	for _, r := range rule {
+		args.elems = append(args.elems, r)
+	}
+	res := ie.it.callDecl(fd, ie.p, &variadic{args})
 	if len(res) == 1 {
 		return res[0]
 	}
 	return nil
+}
+
+// entrySemantics: Parse() starts at the first grammar rule (constant 1),
+// Parse(k, …) at rule k.
+func entrySemantics(v *rtView) (bad []string, und string, n int) {
+	defer func() {
+		if p := recover(); p != nil {
+			switch x := p.(type) {
+			case undecided:
+				und = x.msg
+			case nilDeref:
+				bad = append(bad, "nil dereference at "+x.pos)
+			case goPanic:
+				bad = append(bad, "panic: "+x.msg+" at "+x.pos)
+			default:
+				panic(p)
+			}
+		}
+	}()
+	for _, tc := range []struct {
+		args []int64
+		want int
+	}{{nil, 1}, {[]int64{1}, 1}, {[]int64{2}, 2}, {[]int64{2, 1}, 2}, {[]int64{3}, 3}} {
+		ie, err := newInitEnv(v.in, "ab", false)
+		if err != nil {
+			return nil, err.Error(), n
+		}
+		rules, _ := ie.p.field("rules").v.(*SliceV)
+		if rules == nil || len(rules.elems) < 3 {
+			return nil, "the parser's rule table has fewer than 3 entries", n
+		}
+		if tc.want >= len(rules.elems) {
+			n++ // this grammar has no such rule
+			continue
+		}
+		ran := []int{}
+		for i := 1; i < len(rules.elems); i++ {
+			i := i
+			rules.elems[i] = &Native{"recording rule", func(it *Interp, _ []Value) []Value {
+				ran = append(ran, i)
+				return []Value{true}
+			}}
+		}
+		ie.parseRule(tc.args...)
+		n++
+		if len(ran) != 1 || ran[0] != tc.want {
+			bad = append(bad, fmt.Sprintf("Parse(%v) runs the rule functions %v, expected exactly rule %d", tc.args, ran, tc.want))
+		}
+	}
+	return bad, "", n
 }
 
 // rtReuseSemantics: R-reuse-semantics — Buffer assignment + Reset + Parse on a
@@ -467,7 +569,15 @@ func rtReuseSemantics(a *aggregator, v *rtView, rule, construct string) {
 			if po, _ := o.field("p").v.(*Obj); po != ie.p {
 				same = "ANOTHER parser"
 			}
-			out = "returns an error for " + tokStr(o.field("maxToken").v) + " of " + same
+			var tokOfErr Value
+			for i, f := range o.fields {
+				if fo, ok := f.v.(*Obj); ok && fo != nil {
+					if n, ok := fo.t.(*types.Named); ok && n.Obj().Name() == "token" {
+						tokOfErr = o.fields[i].v
+					}
+				}
+			}
+			out = "returns an error for " + tokStr(tokOfErr) + " of " + same
 		} else if _, isNil := res.(Nil); !isNil {
 			out = "returns " + describe(res)
 		}
@@ -614,7 +724,32 @@ func executeSemantics(c *Check, r *Repo) {
 		c.Und("R-execute-semantics", construct, "", "instantiate: "+err.Error())
 		return
 	}
-	in := buildInst(r, "tmpl[execute model]", head+syntheticTail(cfg))
+	// the rule table as the emitter prints it for a grammar with these features and two actions
+	// (the hand-written stand-in only when the emitter cannot be evaluated)
+	tail := syntheticTail(cfg)
+	if t2, imps, ok := emittedTailN(r, ti, bools, 2); ok {
+		tail = applyVocab(t2, ti.vocabFor(cfg))
+		if len(imps) > 0 {
+			cfg.Imports = imps
+			if head, lm, err = ti.instantiate(cfg); err != nil {
+				c.Und("R-execute-semantics", construct, "", "instantiate: "+err.Error())
+				return
+			}
+		}
+	}
+	in := buildInst(r, "tmpl[execute model]", head+tail)
+	for round := 0; round < 4 && len(in.Errs) > 0; round++ {
+		// all flags set is a valuation the generator cannot produce: its import list is a guess (see runtimeInstances)
+		imps, changed := adjustImports(r, cfg.Imports, in.Errs)
+		if !changed {
+			break
+		}
+		cfg.Imports = imps
+		if head, lm, err = ti.instantiate(cfg); err != nil {
+			break
+		}
+		in = buildInst(r, "tmpl[execute model]", head+tail)
+	}
 	in.Cfg, in.LineMap, in.ti = cfg, lm, ti
 	if len(in.Errs) > 0 {
 		c.Und("R-execute-semantics", construct, "", "the recording instantiation does not type-check: "+in.Errs[0])
@@ -766,9 +901,17 @@ func rtMatcherSemantics(a *aggregator, v *rtView) {
 			pos = v.in.srcPos(f.Pos())
 		}
 	}
-	var bad []string
-	und := ""
-	n := 0
+	bad, und, n := matcherSemantics(v)
+	if und != "" {
+		a.Und("R-matcher-semantics", construct, cfg, pos, und)
+		return
+	}
+	a.Decide(len(bad) == 0 && n > 10, "R-matcher-semantics", construct, cfg, pos,
+		fmt.Sprintf("%d calls: every position (the end symbol's included) of 6 inputs, literals shorter than, equal to and longer than the rest of the input: verdict, new position and no out-of-range index as defined", n), strings.Join(bad, "; "))
+}
+
+// matcherSemantics evaluates matchDot and matchString at every position of short inputs.
+func matcherSemantics(v *rtView) (bad []string, und string, n int) {
 	texts := []string{"", "a", "ab", "aab", "世a", "ab世"}
 	lits := []string{"a", "ab", "b", "世", "aa", "abc", "a世", "ab世x"}
 	for _, text := range texts {
@@ -832,16 +975,14 @@ func rtMatcherSemantics(a *aggregator, v *rtView) {
 		}
 	}
 	if und != "" {
-		a.Und("R-matcher-semantics", construct, cfg, pos, und)
-		return
+		return nil, und, n
 	}
 	sort.Slice(bad, func(i, j int) bool { return len(bad[i]) < len(bad[j]) })
 	bad = uniq(bad)
 	if len(bad) > 3 {
 		bad = append(bad[:3], fmt.Sprintf("… %d more", len(bad)-3))
 	}
-	a.Decide(len(bad) == 0 && n > 10, "R-matcher-semantics", construct, cfg, pos,
-		fmt.Sprintf("%d calls: every position (the end symbol's included) of 6 inputs, literals shorter than, equal to and longer than the rest of the input: verdict, new position and no out-of-range index as defined", n), strings.Join(bad, "; "))
+	return bad, "", n
 }
 
 // bufferSemantics evaluates Init (and then reset with another Buffer on the
@@ -953,4 +1094,27 @@ func rtBufferSemantics(a *aggregator, v *rtView) {
 	}
 	a.Decide(len(bad) == 0 && n > 10, "R-buffer-semantics", construct, v.in.Name, pos,
 		fmt.Sprintf("%d states: Init and repeated reset on 22 inputs (empty, NUL, astral, truncated sequences, adjacent invalid bytes, surrogates, overlong forms, byte order mark, non-characters, white space and line separators, combining marks): field and captured buffer equal []rune(Buffer)+endSymbol", n), strings.Join(bad, "; "))
+}
+
+// memoMapOf: the map behind the memo table, which may be the variable itself
+// or sit inside a wrapper struct (of wrapper structs).
+func memoMapOf(v Value) *MapV {
+	switch x := v.(type) {
+	case *MapV:
+		return x
+	case *Ptr:
+		if x != nil && x.cell != nil {
+			return memoMapOf(x.cell.v)
+		}
+	case *Obj:
+		if x == nil {
+			return nil
+		}
+		for _, f := range x.fields {
+			if m := memoMapOf(f.v); m != nil {
+				return m
+			}
+		}
+	}
+	return nil
 }
